@@ -364,6 +364,32 @@ fn prop(t: &mut Tape, st: &mut Stats) -> Result<(), Failure> {
                 let pd: DocumentMut = text.parse().map_err(|e| Failure::new("formatter", format!("{who}: {e}\n{text}"), case()))?;
                 let mut arrays = Arrays(vec![]);
                 arrays.visit_document(&pd);
+                // table-valued entries (directly under a table or an array-of-tables element, not
+                // inside a value array) all get the same form, wherever they are nested
+                struct Forms {
+                    inline: usize,
+                    standard: usize,
+                }
+                impl<'d> Visit<'d> for Forms {
+                    fn visit_table_like_kv(&mut self, _k: &'d str, node: &'d Item) {
+                        match node {
+                            Item::Value(Value::InlineTable(_)) => self.inline += 1,
+                            Item::Value(Value::Array(a)) if !a.is_empty() && a.iter().all(|e| e.is_inline_table()) => self.inline += 1,
+                            Item::Table(_) | Item::ArrayOfTables(_) => self.standard += 1,
+                            _ => {}
+                        }
+                        // (entries of inline tables and elements of arrays are values: not descended into)
+                        if let Item::Table(_) | Item::ArrayOfTables(_) = node {
+                            toml_edit::visit::visit_table_like_kv(self, _k, node);
+                        }
+                    }
+                }
+                let mut forms = Forms { inline: 0, standard: 0 };
+                forms.visit_document(&pd);
+                if forms.inline > 0 && forms.standard > 0 {
+                    return Err(Failure::new("formatter-layout", format!("{who}: of the table-valued entries that could be written with a header, {} are and {} are left inline, depending on where they are nested\n--- output\n{text}\n---", forms.standard, forms.inline), case()));
+                }
+                st.class("pretty-tables.uniform");
                 // (which layout is the formatter's choice; that it is the same for every array of
                 // the same size class, whatever it is nested in, is what "visits all of them" means)
                 for long in [false, true] {
